@@ -1,5 +1,6 @@
 (* c02 model driver.  One case per line:
      E <int>*            -> hex of encode_dump (the extracted serializer) applied to the model tokens
+     T <int>*            -> hex of one stream section: enc_bootargs / enc_crashpad (Driver.run_encode_stream)
      <hex> [ignored...]  -> observables of the extracted decode_dump on exactly these bytes:
                             sections joined by ';', each `status:item|item|...`, item = ints joined by ',' *)
 let hexchar = "0123456789abcdef"
@@ -24,6 +25,12 @@ let () =
         if line.[0] = 'E' then begin
           let toks = List.tl (split_ws line) in
           match run_encode (List.map z_of_string toks) with
+          | Some bs -> print_endline (hex_of_bytes bs)
+          | None -> print_endline "ENCFAIL"
+        end else if line.[0] = 'T' then begin
+          (* T kind endian offset <model tokens>: the bytes of one round-4 stream section (extracted enc_bootargs / enc_crashpad) *)
+          let toks = List.tl (split_ws line) in
+          match run_encode_stream (List.map z_of_string toks) with
           | Some bs -> print_endline (hex_of_bytes bs)
           | None -> print_endline "ENCFAIL"
         end else begin
